@@ -453,8 +453,27 @@ O(id='uper_open_type_put.leak', props=['C14', 'C07'], kind='bounded', entry='h_u
   bound='an open type whose contents are 0..8 bits, written at the end of the 32-octet scratch space; callback may fail at any call; every allocation may fail',
   min_props=50, timeout=900, tier='experimental')
 
+CONSTR = 'constructed codecs (SEQUENCE_*, SET_*, CHOICE_*, SET_OF_* / SEQUENCE_OF_* encode/decode for BER, OER, UPER), for arbitrary and for generated descriptors: symbolic execution of SEQUENCE_decode_ber on a generated 2-member descriptor does not finish in 10 minutes; the modular route (replace ber_fetch_tag/ber_check_tags/member decoders by contracts under dfcc) is not built'
+GEN = 'everything the compiler emits as text: type descriptor tables (emit_type_DEF, emit_member_table), constraint checkers (asn1c_emit_constraint_checking_code), tag maps, selector tables'
+XERU = 'all XER encoders/decoders (xer_decode_general, pxml_parse, OCTET_STRING hex/binary/entity bodies, REAL/INTEGER text forms through snprintf/strtod)'
 UNVERIFIED = {
+ 'C01': [CONSTR, GEN, XERU, 'uper_open_type_put / uper_open_type_get_simple (fragmentation at 16K needs inputs beyond any unwinding bound)', 'INTEGER (wide) UPER with semi-constrained ranges; NativeEnumerated (bsearch has no CBMC model); REAL text forms; time types', 'transcoding chains'],
+ 'C02': [CONSTR, GEN, 'tag assignment in the fixer (asn1f_fix_constr_autotag, asn1f_fetch_tags)', 'restricted-string PER alphabets (OCTET_STRING_per_put_characters)', 'NativeInteger_uper.* obligations exist but do not discharge (tier experimental)'],
+ 'C03': [CONSTR, XERU, 'OCTET_STRING_decode_ber constructed reassembly (obligation experimental)', 'uper_open_type_skip', 'ber_skip_length (obligation experimental: recursion does not discharge)'],
+ 'C04': [CONSTR, XERU, 'OCTET_STRING_decode_ber (experimental)', 'per_opentype.c', 'UTF8String__process, OCTET_STRING_per_get_characters', 'unber (experimental)'],
+ 'C05': [CONSTR + ' -- i.e. every phase/step machine that saves a context across calls', XERU],
+ 'C06': ['SET_OF__encode_sorted / SET_OF_encode_der / SET_OF_encode_uper (only the comparator _el_buf_cmp is covered)', 'DEFAULT omission in SEQUENCE encoders (try_inline_default emits text)', 'CANONICAL-XER', 'decode-from-variant then re-encode for constructed types'],
  'C07': ['asn_encode_to_buffer / asn_encode_to_new_buffer / uper_encode_to_buffer / uper_encode_to_new_buffer with a UPER type encoder: obligations exist (tier experimental) but do not discharge (symbolic-length memcpy of the 32-octet bit scratch space runs out of memory); asn_encode with UPER is covered',
-         'every constructed / generated type encoder is assumed to follow the operation-slot convention enumerated by the stub encoder',
-         'XER encoders of concrete types (text produced through snprintf)'],
+         'every constructed / generated type encoder is assumed to follow the operation-slot convention enumerated by the stub encoder', XERU,
+         'NULL_encode_der and other type encoders not listed under functions_under_contract'],
+ 'C08': [GEN, 'container walkers SEQUENCE_constraint / SET_constraint / CHOICE_constraint / SET_OF_constraint', 'UTF8String_constraint / UTF8String__process', 'OBJECT_IDENTIFIER_constraint'],
+ 'C09': ['asn1constraint_compute_constraint_range (recursion over parsed constraint ASTs, value resolution), asn1constraint_pullup, asn1f_resolve_constraints', '_range_intersection (obligations experimental: out of memory / time), _range_union with three or more pieces, _range_canonicalize', 'emit_single_member_OER_constraint_size, alphabet-size branch of emit_single_member_PER_constraint', 'the consequence clause (same root set => same encoding) follows only as far as the tree evaluation is covered, i.e. it is not claimed'],
+ 'C13': ['options acting in the code generator (-fcompound-names, -findirect-choice, -fno-include-deps, -fincludes-quoted, -fno-constraints, codec disabling): properties of emitted text', 'NativeReal vs REAL, NativeEnumerated vs ENUMERATED', 'pointer-vs-inline members in constructed codecs'],
+ 'C14': [CONSTR + ' (SEQUENCE_free, SET_OF_free, CHOICE_free and the failure paths of the constructed decoders)', XERU, 'asn_set_add/del/empty obligation is experimental (realloc model runs out of memory)', 'uper_open_type_put leak obligation experimental'],
+ 'C15': ['machine stack depth: not expressible (CBMC has no stack-size notion; ASN__STACK_OVERFLOW_CHECK compares addresses of different objects)', CONSTR, 'OCTET_STRING_decode_ber expectation stack'],
+ 'C16': ['asn_REAL2double on arbitrary REAL encodings (only encodings produced by asn_double2REAL are covered, in the thorough tier); decimal NR1-3 forms (strtod)', 'decimal parsers beyond 7 characters except the overflow-boundary neighbourhood', 'asn_INTEGER2imax/umax beyond 24 octets'],
+ 'C17': ['asn_GT2time*, asn_time2GT*, asn_UT2time, asn_time2UT: not applicable (libc calendar, TZ)', 'OBJECT_IDENTIFIER_parse_arcs, OBJECT_IDENTIFIER_get_arcs beyond 4 arcs, RELATIVE-OID'],
+ 'C18': [GEN + ' (emit_member_type_selector, asn1c_ioc.c object-set matrix, WITH SYNTAX parsing)', 'OPEN_TYPE_xer_get, OPEN_TYPE_uper_get', 'the SEQUENCE decoders that call the getters'],
+ 'C19': ['actual interleavings, libc reentrancy (strtod, snprintf; errno is thread-local by assumption)', 'writes through pointers into static objects are not tracked by the scan', 'frames are machine-checked only for the functions listed under proof_obligations with kind enforce / width+enforce'],
+ 'C20': ['enber, and the enber(unber -p x) == x inverse: not applicable', 'unber obligations are experimental (do not discharge within 40 minutes for 5-octet inputs)'],
 }
